@@ -337,9 +337,17 @@ func sprintfModel(fr *frame, in ssa.Instruction, c *ssa.CallCommon, args []Val, 
 func (fc *FnCtx) fmtArg(a Term, verb byte, spec string) Term {
 	fc.declareFun("fmt$any", []string{SAny, SInt}, SString)
 	fc.declareFun("quote$", []string{SString}, SString)
-	generic := Term{fmt.Sprintf("(fmt$any %s %d)", a.S, int(verb)+256*len(spec)), SString}
+	generic := Term{fmt.Sprintf("(fmt$any %s %d)", a.S, int(verb)), SString}
+	if spec != "" {
+		// flags/width/precision are part of the symbol's arguments: a changed format is a different text
+		fc.declareFun("fmt$anys", []string{SAny, SInt, SString}, SString)
+		generic = Term{fmt.Sprintf("(fmt$anys %s %d %s)", a.S, int(verb), smtString(spec)), SString}
+	}
 	if a.Sort != SAny {
 		return generic
+	}
+	if t, ok := fc.fmtPadded(a, verb, spec); ok {
+		return t
 	}
 	// booleans print as true/false under %v
 	if verb == 'v' && spec == "" {
@@ -882,4 +890,57 @@ func (fc *FnCtx) fmtTyped(a Term, t types.Type, verb byte, spec string) (Term, b
 		}
 	}
 	return Term{}, false
+}
+
+// fmtPadded: %0Nd applied to an integer value: the decimal text, zero-padded to width N with the
+// sign (if any) in front - exactly what fmt prints for int64 (defined, not assumed: str.from_int is
+// the decimal notation of a non-negative integer). Other dynamic types fall back to the generic symbol.
+func (fc *FnCtx) fmtPadded(a Term, verb byte, spec string) (Term, bool) {
+	if verb != 'd' || len(spec) < 2 || spec[0] != '0' || a.Sort != SAny {
+		return Term{}, false
+	}
+	n := 0
+	for _, ch := range spec[1:] {
+		if ch < '0' || ch > '9' {
+			return Term{}, false
+		}
+		n = n*10 + int(ch-'0')
+	}
+	if n <= 0 || n > 64 {
+		return Term{}, false
+	}
+	name := fmt.Sprintf("pad$d%d", n)
+	if !fc.declSet[name] {
+		fc.declSet[name] = true
+		zeros := smtString(strings.Repeat("0", n))
+		fc.decls = append(fc.decls, fmt.Sprintf("(define-fun %s ((x Int)) String (ite (>= x 0) (str.++ (str.substr %s 0 (- %d (str.len (str.from_int x)))) (str.from_int x)) (str.++ \"-\" (str.substr %s 0 (- %d (str.len (str.from_int (- x))))) (str.from_int (- x)))))", name, zeros, n, zeros, n-1))
+	}
+	fc.declareFun("fmt$anys", []string{SAny, SInt, SString}, SString)
+	generic := fmt.Sprintf("(fmt$anys %s %d %s)", a.S, int(verb), smtString(spec))
+	return fc.define("fmt", Term{fmt.Sprintf("(ite ((_ is aint) %s) (%s (aival %s)) %s)", a.S, name, a.S, generic), SString}), true
+}
+
+// permTerm: perm$S(a, b): slice b is a permutation of slice a. An uninterpreted predicate with its
+// consequences as axioms: equal lengths, and a witness index function that is injective and maps
+// every position of a to a position of b holding the same element (so every element of a occurs in
+// b with at least its multiplicity; with equal lengths: exactly). Reflexive and transitive.
+func (fc *FnCtx) permTerm(a, b Term) string {
+	es := sortArgs(a.Sort)[0]
+	p := "perm$" + sanitize(es)
+	if !fc.declSet[p] {
+		fc.declSet[p] = true
+		S := a.Sort
+		at := func(s, j string) string { return fc.slcAt(Term{s, S}, j).S }
+		w := "permidx$" + sanitize(es)
+		fc.decls = append(fc.decls,
+			fmt.Sprintf("(declare-fun %s (%s %s) Bool)", p, S, S),
+			fmt.Sprintf("(declare-fun %s (%s %s Int) Int)", w, S, S),
+			fmt.Sprintf("(assert (forall ((a %s)) (! (%s a a) :pattern ((%s a a)))))", S, p, p),
+			fmt.Sprintf("(assert (forall ((a %s) (b %s) (c %s)) (! (=> (and (%s a b) (%s b c)) (%s a c)) :pattern ((%s a b) (%s b c)))))", S, S, S, p, p, p, p, p),
+			fmt.Sprintf("(assert (forall ((a %s) (b %s)) (! (=> (%s a b) (= (slen a) (slen b))) :pattern ((%s a b)))))", S, S, p, p),
+			fmt.Sprintf("(assert (forall ((a %s) (b %s) (i Int)) (! (=> (and (%s a b) (<= 0 i) (< i (slen a))) (and (<= 0 (%s a b i)) (< (%s a b i) (slen b)) (= %s %s))) :pattern ((%s a b) %s))))", S, S, p, w, w, at("b", "("+w+" a b i)"), at("a", "i"), p, at("a", "i")),
+			fmt.Sprintf("(assert (forall ((a %s) (b %s) (i Int) (j Int)) (! (=> (and (%s a b) (<= 0 i) (< i j) (< j (slen a))) (not (= (%s a b i) (%s a b j)))) :pattern ((%s a b i) (%s a b j)))))", S, S, p, w, w, w, w))
+		fc.trusted["perm(a, b) is an uninterpreted predicate constrained only by consequences of 'b is a permutation of a' (equal length, injective element-preserving index map, reflexive, transitive); it is introduced only by the assumed contract of sort.Sort"] = true
+	}
+	return fmt.Sprintf("(%s %s %s)", p, a.S, b.S)
 }
